@@ -34,4 +34,15 @@ TMk == [name |-> "mk", maxlen |-> 3, paths2 |-> {<<"">>}, nodes |-> <<
     D(5, R, "a"), D(6, 5, "sub"), F(7, R, "f"), L(8, R, "la", <<"a">>), L(9, R, "dang", <<"nonexist">>), L(10, 5, "esc", <<"..", "..", "out">>), L(11, 6, "up", <<"..">>),
     L(12, R, "ld1", <<".", "a">>), L(13, R, "ld2", <<"a", ".", "sub">>), L(14, R, "ld3", <<"a", ".">>) >>]
 const_TreesMk == <<TMk>>
+\* trees for the partial-lookup equivalence (PartialBackendsAgree): tail-chained, dangling, absolute, slash-terminated and ".." links
+TPl == [name |-> "pl", maxlen |-> 3, paths2 |-> {<<"">>}, nodes |-> <<
+    D(5, R, "a"), D(6, 5, "b"), F(7, 5, "f"),
+    L(8, R, "c1", <<"c2">>), L(9, R, "c2", <<"a">>),                 \* chain ending in a directory
+    L(10, R, "d1", <<"d2">>), L(11, R, "d2", <<"nx">>),              \* chain ending nowhere
+    L(12, R, "m", <<"a", "nx", "y">>),                               \* missing in the middle of a body
+    L(13, R, "abs", <<"", "a", "b">>), L(14, R, "absd", <<"", "nx">>),
+    L(15, R, "sl", <<"a", "">>), L(16, R, "dd", <<"a", "b", "..">>), L(17, 5, "up", <<"..", "..">>),
+    L(18, R, "mm", <<"c1", "b">>), L(19, R, "lf", <<"a", "f">>) >>]
+const_TreesPartial == <<TMk, TPl>>
+const_OpsMk == { [op |-> "mkdir_all"] }
 =============================================================================
